@@ -124,6 +124,10 @@ VALUES = [
     "[(1, 'a')]",
     "()", "(1,)", "(1, 'a')", "(1, 2)", "('a', 1)", "(1.5, 'a')", "(D(), 1)",
     "(1, 'a', 1.5)", "(None, None)", "((1,),)", "([1], 1)",
+    # containers of containers: a conforming element before an offending one
+    "([1], ['a'])", "(['a'], [1])", "[[1], ['a']]", "([1], [2])",
+    "({1}, {'a'})", "[(1, 'a'), ('a', 1)]", "((1, 'a'), (2, 'b'))",
+    "[{'a': 1}, {'a': 's'}]", "((1,), (1, 2))",
     "set()", "{1}", "{'a'}", "{1, 'a'}", "frozenset()", "frozenset([1])",
     "{}", "{'a': 1}", "{1: 'a'}", "{'a': 'b'}", "{'a': D()}", "{'a': [1]}",
     "{'a': 1, 'b': 'c'}", "{'a': None}",
@@ -131,7 +135,8 @@ VALUES = [
     "(lambda: 1)", "(lambda x: x)", "(lambda x, y: x)",
 ]
 HETEROGENEOUS = {"[1, 'a']", "[1, 1.5]", "[D(), B()]", "[1, None]", "{1, 'a'}",
-                 "{'a': 1, 'b': 'c'}"}
+                 "{'a': 1, 'b': 'c'}", "[[1], ['a']]", "[(1, 'a'), ('a', 1)]",
+                 "[{'a': 1}, {'a': 's'}]"}
 
 
 def member(v, a, ns):
